@@ -1453,6 +1453,14 @@ func init() {
 		}
 		return Sc{sl.Arr}, tMathInt
 	}
+	// bytestext(b): the text held by a []byte value (what string(b) yields)
+	specBuiltins["bytestext"] = func(e *SpecEnv, n *ast.CallExpr) (SV, types.Type) {
+		v, _ := e.eval(n.Args[0])
+		if _, ok := v.(Sl); !ok {
+			e.fail("bytestext() needs a []byte")
+		}
+		return Sc{e.c.sliceText(e.st, v)}, types.Typ[types.String]
+	}
 	// samearray(a, b): two slices share their backing array
 	specBuiltins["samearray"] = func(e *SpecEnv, n *ast.CallExpr) (SV, types.Type) {
 		a, _ := e.eval(n.Args[0])
